@@ -309,9 +309,17 @@ JPar(line) ==
              ELSE IF line.obs.out = "race" THEN {"par_norace"} ELSE {"par_nocrash"} ]
 
 \* round trip (C01): the decode of frugal's own output for value orig
-FailRoundTrip(ty, orig, in, obs) ==
+\* hops = 2: the value went through an intermediary (decode + re-encode) before this decode.  Every
+\* hop normalises once more (a nil pointer element becomes a zero struct whose own nil containers
+\* become empty on the next hop), and fields the intermediary did not know travel unchanged, so the
+\* two sides are compared after normalising both to the same depth: nothing but nil-versus-empty
+\* distinctions is given up.
+N3(ty, v) == NormS(ty, NormS(ty, NormS(ty, v)))
+FailRoundTrip(ty, orig, in, obs, hops) ==
   IF obs.out # "ok" THEN {"rt_ok"}
-  ELSE If(obs.n = Len(in), "rt_n") \cup If(SameStruct(ty, obs.val, NormS(ty, orig)), "rt_val")
+  ELSE If(obs.n = Len(in), "rt_n") \cup
+       If(IF hops = 2 THEN SameStruct(ty, N3(ty, obs.val), N3(ty, orig))
+          ELSE SameStruct(ty, obs.val, NormS(ty, orig)), "rt_val")
 
 \* ---- actions ---------------------------------------------------------------
 Call(ty) == used' = used \cup {ty} /\ ncalls' = ncalls + 1 /\ UNCHANGED cfg
